@@ -139,3 +139,82 @@ def subset_and_order_do_not_matter(mask: int, rot: int, rev: bool) -> bool:
 
 
 _MASK_ONLY = int(os.environ.get("C10_MASK", "-1"))
+
+
+# ------------------------------------------------------------------------------------------------ earlier run with other options
+_A = [i for i, (t, _) in enumerate(_ALL) if t.short_name == "A"][0]
+
+
+def _gen_A_with(g, omit: bool) -> str:
+    _FS[0] = FakeFS()
+    g._env.update_nunavut_globals(*g.language_context.get_target_language().get_support_module(), omit, False)
+    t, p = _ALL[_A]
+    g._generate_type(t, p, False, True)
+    return _FS[0].files[str(p)][0]
+
+
+def _fresh_generator():
+    return DSDLCodeGenerator(_ns, post_processors=[TrimTrailingWhitespace(), LimitEmptyLines(1)])
+
+
+_BASE_OMIT = {o: _gen_A_with(_fresh_generator(), o) for o in (False, True)}     # each from a generator that never ran before
+_G_REUSED = _fresh_generator()                                                  # never used at import time
+
+
+def earlier_run_with_other_options_does_not_matter(omit_first: bool, omit_second: bool) -> bool:
+    """
+    post: _
+    """
+    # one generator object, two runs with (possibly) different --omit-serialization-support: the second run's file equals the file a
+    # generator that never ran before produces for the second run's options
+    try:        # realised at entry: a symbolic bool consulted all over the compiled templates forks on every use
+        from crosshair import deep_realize
+        omit_first, omit_second = deep_realize(omit_first), deep_realize(omit_second)
+    except ImportError:
+        pass
+    _gen_A_with(_G_REUSED, omit_first)
+    return _gen_A_with(_G_REUSED, omit_second) == _BASE_OMIT[omit_second]
+
+
+# ------------------------------------------------------------------------------------------------ earlier run over ANOTHER tree
+ROOT_B = "/verif/data/ns1b/vt"
+_types_b = pydsdl.read_namespace(ROOT_B, [])
+_lctx_b = LanguageContextBuilder().set_target_language("c").create()
+_ns_b = build_namespace_tree(_types_b, ROOT_B, "/o", _lctx_b)
+_G_B = DSDLCodeGenerator(_ns_b, post_processors=[TrimTrailingWhitespace(), LimitEmptyLines(1)])
+_ALL_B = {t.short_name: (t, p) for t, p in _G_B.namespace.get_all_datatypes()}
+_B_IDX = [i for i, (t, _) in enumerate(_ALL) if t.short_name == "B"][0]
+
+
+def _includes(text: str) -> typing.List[str]:
+    return sorted(l[len("#include <"):-1] for l in text.split(chr(10)) if l.startswith("#include <vt/") and l.endswith(">"))
+
+
+def _gen_B_of_tree_b() -> str:
+    _FS[0] = FakeFS()
+    _G_B._env.update_nunavut_globals(*_G_B.language_context.get_target_language().get_support_module(), False, False)
+    t, p = _ALL_B["B"]
+    _G_B._generate_type(t, p, False, True)
+    return _FS[0].files[str(p)][0]
+
+
+def earlier_run_over_another_tree_does_not_matter(b_first: bool) -> bool:
+    """
+    post: _
+    """
+    # tree b holds a vt.B.1.0 of the same name, version and size that refers to OTHER nested types (sub.D instead of sub.C).  Whatever was
+    # generated earlier in this process (other generator, other language context), each file refers to exactly the types ITS definition
+    # refers to, and the file of tree a equals the baseline
+    try:
+        from crosshair import deep_realize
+        b_first = deep_realize(b_first)
+    except ImportError:
+        pass
+    if b_first:
+        fb = _gen_B_of_tree_b()
+        out = _gen_types([_B_IDX])
+    else:
+        out = _gen_types([_B_IDX])
+        fb = _gen_B_of_tree_b()
+    fa = list(out.values())[0]
+    return _includes(fa) == ["vt/A_1_0.h", "vt/sub/C_1_0.h"] and _includes(fb) == ["vt/A_1_0.h", "vt/sub/D_1_0.h"] and fa == _BASE[list(out)[0]]
